@@ -601,6 +601,17 @@ func (rd *round) getSessions(w int, rl *relay) []*heldSession {
 	s1 := rd.csm.VerifSnapshot()
 	unwanted := rl.up.GetUnwantedProvidersToSend(rk)
 	aloneAtStart := rd.active.Load() == 1
+	// diagnostics for the blocked-as-last-resort witness (only when no other call is in progress, so no lock is contended)
+	var epBefore map[string][]lavasession.VerifConsumerEndpointSnap
+	if aloneAtStart {
+		epBefore = map[string][]lavasession.VerifConsumerEndpointSnap{}
+		for _, q := range s1.Valid {
+			if po := rd.at(s1.Epoch, q); po != nil {
+				epBefore[q] = po.cswp.VerifSnapshot().Endpoints
+			}
+		}
+	}
+	t0 := time.Now()
 	css, err := rd.csm.GetSessions(context.Background(), rl.wanted, rl.cu, rl.up, 100, rl.addon, rl.exts, rl.stateful, ve, "", "")
 	// exclusivity counter: incremented right after the acquisition
 	type acq struct {
@@ -617,6 +628,7 @@ func (rd *round) getSessions(w int, rl *relay) []*heldSession {
 		acqs = append(acqs, acq{addr, info, sl.inUse.Add(1), sl, p})
 	}
 	rd.held.Add(int64(len(acqs)))
+	callWall := time.Since(t0) // diagnostics only
 	s2 := rd.csm.VerifSnapshot()
 	isolated := aloneAtStart && rd.seq.Load() == startSeq && rd.active.Load() == 1
 	rd.seq.Add(1)
@@ -786,8 +798,30 @@ func (rd *round) getSessions(w int, rl *relay) []*heldSession {
 							}
 						}
 						_, un := unwanted[q]
-						diag[q] = map[string]any{"used": qs.UsedCU, "max": qs.MaxCU, "endpoints": qs.Endpoints, "sessions": len(qs.Sessions), "blocklisted_sessions": blocklisted, "optimizer_has_report": rep != nil, "unwanted": un, "supports": po.supports(rl.addon, rl.extNames), "blocked_status": qs.BlockedStatus}
+						diag[q] = map[string]any{"used": qs.UsedCU, "max": qs.MaxCU, "endpoints": qs.Endpoints, "sessions": len(qs.Sessions), "blocklisted_sessions": blocklisted, "optimizer_has_report": rep != nil, "unwanted": un, "supports": po.supports(rl.addon, rl.extNames), "blocked_status": qs.BlockedStatus, "endpoints_before_call": epBefore[q]}
 					}
+					diag["call_wall_ms"] = callWall.Milliseconds()
+					// the same request again, three times, with a fresh relay state each (no longer isolated: diagnostics only)
+					var again []string
+					for i := 0; i < 3; i++ {
+						css2, err2 := rd.csm.GetSessions(context.Background(), rl.wanted, rl.cu, lavasession.NewUsedProviders(nil), 100, rl.addon, rl.exts, rl.stateful, ve, "", "")
+						if err2 != nil {
+							again = append(again, "error")
+							continue
+						}
+						for a2, i2 := range css2 {
+							again = append(again, a2)
+							p2 := rd.lookup(i2.Session.Parent)
+							sl2 := rd.ledger(i2.Session, p2)
+							sl2.mu.Lock()
+							if i2.Session.RelayNum > sl2.lastRelayNum {
+								sl2.lastRelayNum = i2.Session.RelayNum
+							}
+							sl2.mu.Unlock()
+							_ = rd.csm.OnSessionFailure(i2.Session, fmt.Errorf("c28: diagnostic relay"))
+						}
+					}
+					diag["same_request_again"] = again
 					rd.h.violation("blocked-provider-not-last-resort", fmt.Sprintf("request=%s stateful=%d wanted=%d", rl.kind, rl.stateful, rl.wanted),
 						fmt.Sprintf("round %d: GetSessions returned %s, blocked in epoch %d, although unblocked provider %s supports the request, is not excluded by the relay and has CU left (used %d + %d <= %d)", rd.p.Round, a.addr, s1.Epoch, witnessQ, witnessUsed, rl.cu, witnessCap),
 						rd.witness(key, s.SessionId, map[string]any{"snapshot_before": s1, "snapshot_after": s2, "unwanted": keys(unwanted), "returned": keysCss(css), "virtual_epoch": ve, "cu": rl.cu, "addon": rl.addon, "extensions": rl.extNames, "candidates": diag}))
